@@ -100,7 +100,7 @@ def setup():
     shutil.copytree("/verif/harness", VROOT + "/harness", ignore=shutil.ignore_patterns("target"))
     ct = open(VROOT + "/harness/Cargo.toml").read().replace('path = "/repo"', f'path = "{WT}"')
     open(VROOT + "/harness/Cargo.toml", "w").write(ct)
-    for d in ["regress", "notes"]:
+    for d in ["regress", "notes", "fixtures"]:
         if os.path.lexists(VROOT + "/" + d): os.remove(VROOT + "/" + d) if os.path.islink(VROOT + "/" + d) else shutil.rmtree(VROOT + "/" + d)
         os.symlink("/verif/" + d, VROOT + "/" + d)
     shutil.copy("/verif/known-findings.txt", VROOT + "/known-findings.txt")
